@@ -80,7 +80,12 @@ def run_history(h, ctx, farmer=None):
                             elif via == 'crop': crop.grow(op['ids'], verbosity=0)
                             elif via == 'crop_int' and len(op['ids']) == 1: crop.grow(op['ids'][0], verbosity=0)
                             elif via == 'workers':
-                                for i in op['ids']: cropping.grow(i, crop=crop, num_workers=2, verbosity=0)
+                                # in-batch parallelism; staggered run times make completion order differ from submission order
+                                os.environ[fns.STAGGER_ENV] = '0.03'
+                                try:
+                                    for i in op['ids']: cropping.grow(i, crop=crop, num_workers=2, verbosity=0)
+                                finally:
+                                    os.environ.pop(fns.STAGGER_ENV, None)
                             else:
                                 for i in op['ids']: cropping.grow(i, crop=crop, verbosity=0)
                         finally:
@@ -138,7 +143,7 @@ def history_request(h):
     for op in h['ops']:
         o = dict(op)
         if o['op'] == 'sow':
-            o['sweep'] = sweeps.sweep_request(sw)
+            o['sweep'] = sweeps.sweep_request(o.pop('sw', None) or sw)
         ops.append(o)
     return {'op': 'crop', 'perms': perms, 'kind': sweeps.model_kind(h['kind']), 'ops': ops}
 
